@@ -125,3 +125,14 @@ SQL_SYNTAX_WORDS = {"case", "when", "then", "else", "end", "cast", "and", "or", 
                     "by", "order", "distinct", "from", "select", "exists", "between", "like"}
 POSTGRESQL_TYPES = {"BIGINT", "INTEGER", "INT", "SMALLINT", "DOUBLE PRECISION", "REAL", "NUMERIC", "DECIMAL", "FLOAT", "VARCHAR",
                     "TEXT", "CHAR", "BOOLEAN", "DATE", "TIMESTAMP", "TIME", "INTERVAL"}
+
+
+# forms of built-in SQL functions whose meaning differs from the catalogued (numpy) meaning they are used for.
+# (dialect, FUNCTION, number of arguments) -> why
+SQL_FUNCTION_FORM_CAVEATS = {
+    ("SQLiteModel", "ROUND", 2): "SQLite's ROUND(X, Y) takes a negative Y as 0 and rounds on the decimal rendering of X (sqlite.org/lang_corefunc.html#round); "
+                                 "rounding to d decimals in the numpy sense needs the explicit scaling ROUND(x * POWER(10, d)) / POWER(10, d)",
+    ("PostgreSQLModel", "ROUND", 2): "PostgreSQL has ROUND(numeric, integer) only: ROUND(double precision, integer) does not exist and the query fails",
+    ("PostgreSQLModel", "LOG", 1): "LOG(x) is the base-10 logarithm in PostgreSQL; the natural logarithm is LN(x)",
+    ("SQLiteModel", "MAX", 2): "the two-argument scalar MAX returns NULL if any argument is NULL (propagates); as an aggregate it ignores NULL",
+}
